@@ -57,7 +57,7 @@ ASSUMPTIONS = [
     'requested non-zero mag_noise is honoured (only that the reported attribute is the applied one; replacements are counted '
     'in coverage class mag_noise:request-replaced)',
 ]
-REQUIRED_CLASSES = ['given:near-pole', 'given:near-unit rows', 'in_degrees:other carrier', 'mode:random', 'mode:given', 'gyr_noise=0', 'acc_noise=0', 'mag_noise=0', 'gyr_noise>0', 'acc_noise>0',
+REQUIRED_CLASSES = ['given:repaired QuaternionArray object', 'given:near-pole', 'given:near-unit rows', 'in_degrees:other carrier', 'mode:random', 'mode:given', 'gyr_noise=0', 'acc_noise=0', 'mag_noise=0', 'gyr_noise>0', 'acc_noise>0',
                     'mag_noise>0', 'in_degrees', 'radians', 'normalized_mag', 'raw_mag', 'refs:default', 'refs:explicit',
                     'mag_noise:request-honoured', 'N=10', 'given:piecewise', 'given:through-pole', 'integration:tight-bound']
 
@@ -160,7 +160,16 @@ def _construct(rng, quats, N, freq, kw):
             s = S.Sensors(num_samples=N, freq=freq, **kw)
         else:
             typ, Q = quats
-            s = S.Sensors(QuaternionArray(Q.copy()) if typ == 'QA' else Q.copy(), freq=freq, **kw)
+            if typ == 'QAr':
+                # composition: a sequence with sign jumps, repaired in place by the array class, then handed over as the object
+                X = Q.copy()
+                X[len(X) // 3: len(X) // 2] *= -1.0
+                X[-3:] *= -1.0
+                obj = QuaternionArray(X)
+                obj.remove_jumps()
+                s = S.Sensors(obj, freq=freq, **kw)
+            else:
+                s = S.Sensors(QuaternionArray(Q.copy()) if typ == 'QA' else Q.copy(), freq=freq, **kw)
     finally:
         S.GENERATOR = old
     return s, rec
@@ -471,6 +480,8 @@ def job_given(ctx, names, N, freq, q0name, rngs, full):
         Qraw = _raw(name, Qg)
         Qg = Qraw / np.sqrt((Qraw * Qraw).sum(axis=1))[:, None]
         typ = 'QA' if (ti + (q0name != 'I')) % 2 == 0 else 'nd'
+        if ti % 5 == 3 and '~' not in name:
+            typ = 'QAr'
         degc = ('py', 'np', 'int')[ti % 3]
         first = True
         for rng in rngs:
@@ -490,6 +501,7 @@ def job_given(ctx, names, N, freq, q0name, rngs, full):
                         if name in ('npole', 'ppole'): ctx.cls('given:near-pole')
                         if '~' in name: ctx.cls('given:near-unit rows')
                         if degc != 'py': ctx.cls('in_degrees:other carrier')
+                        if typ == 'QAr': ctx.cls('given:repaired QuaternionArray object')
                         if facts is None:
                             continue
                         if facts['moving']:
